@@ -248,11 +248,13 @@ PROPS = {
             {"id": "rewards", "func": "VerifRewards", "pkg": NODE, "pkgname": "node", "load": ["./node"],
              "params": {"quick": {"maxwinners": 3}, "thorough": {"maxwinners": 4}}, "must_cover": ["winners", "no-winners"], "max_witness_replays": 6},
             GRADEGLUE,
+            {"id": "fct-burns", "func": "VerifBurns", "pkg": NODE, "pkgname": "node", "load": ["./node"],
+             "params": {"quick": {}, "thorough": {}}, "must_cover": ["burn", "no-burn"], "max_witness_replays": 4},
             {"id": "staker-binding", "func": "VerifStakerBinding", "pkg": NODE, "pkgname": "node", "load": ["./node"],
              "params": {"quick": {}, "thorough": {}}, "must_cover": ["holder-signed", "names-a-holder-signed-by-another-key", "names-no-holder"], "max_witness_replays": 4},
              SYNCBLOCK,
         ],
-        "bounds": {"quick": "ApplyGradedOPRBlock / ApplyGradedSPRBlock with an arbitrary verdict of 0..3 winners (payouts 0..2^58, payout address one of two addresses or unparsable), symbolic height and block time, prior balances symbolic",
+        "bounds": {"quick": "ApplyGradedOPRBlock / ApplyGradedSPRBlock with an arbitrary verdict of 0..3 winners (payouts 0..2^58, payout address one of two addresses or unparsable), symbolic height and block time, prior balances symbolic; ApplyFactoidBlock over a factoid block of 1..2 transactions of arbitrary shape (0..2 FCT inputs, 0..1 FCT outputs, 0..2 EC outputs, to the burn address or elsewhere, EC amount 0 or not); one real signed staking record naming a holder / non-holder, signed by the holder's key / another key, through the real GradeS",
                    "thorough": "0..4 winners"},
         "assumptions": ["the grading decision (which records win, how much) is dependency code: an arbitrary verdict object implementing the dependency's interfaces stands in for it (DESIGN §9)",
                         "entry hashes of distinct winners are distinct; payouts are non-negative"],
